@@ -4,12 +4,13 @@ import Driver.OpsPki
 import Driver.OpsHash
 import Driver.OpsHist
 import Driver.OpsKeys
+import Driver.OpsExt
 /-! Line-protocol driver: reads one JSON object per line (`op`, `id`, `in`, `out`) from stdin,
     runs the Lean model and the specification on it, and prints one verdict per line. -/
 open Lean Driver
 
 def table : List (String × OpFn) :=
-  [("merge", opMerge), ("validate", opValidate), ("rdn", opRdn), ("raw", opRaw), ("validity", opValidity), ("pki", opPki), ("hash", opHash), ("hist", opHist), ("open", opPki), ("pkcs8", opPkcs8), ("pemfile", opPemFile)]
+  [("merge", opMerge), ("validate", opValidate), ("rdn", opRdn), ("raw", opRaw), ("validity", opValidity), ("pki", opPki), ("hash", opHash), ("hist", opHist), ("open", opPki), ("pkcs8", opPkcs8), ("pemfile", opPemFile), ("ext", opExt)]
 
 def handleLine (view : String) (line : String) : String :=
   match Json.parse line with
